@@ -135,7 +135,11 @@ def check(model: Model, report: Report) -> None:
         report.ok("R14.4", init.qualname, "registry is a fresh dict per instance")
     elif not any(f.key.startswith("registry") for f in report.findings):
         report.fail("R14.4", init.qualname, "registry-missing", "JSONPathEnvironment.__init__ does not create self.function_extensions", file=init.file, line=init.line)
-    report.ok("R14.4", "<package>", "class-level mutable containers are never written (census)", detail={"class_level_mutables": [f"{c.qualname}.{n}" for c, n, _ in effects.class_level_mutables(model)]})
+    clw = effects.class_level_mutable_writes(model)
+    for ci_, name_, w in clw:
+        report.fail("R14.4", w.fn.qualname, f"class-level-container-written:{ci_.name}.{name_}:{w.detail}", f"{ci_.name}.{name_} is a container created once in the class body and never rebound per instance; {w.kind} {w.receiver}.{w.detail} writes to the one object every instance (every query, iterator and thread) shares", file=w.fn.file, line=w.line)
+    if not clw:
+        report.ok("R14.4", "<package>", "class-level mutable containers are never written (census)",             detail={"class_level_mutables": [f"{c.qualname}.{n}" for c, n, _ in effects.class_level_mutables(model)]})
     # R14.5 module-level API
     pkg = model.module("__init__")
     de = pkg.assigns.get("DEFAULT_ENV")
